@@ -93,7 +93,10 @@ TEXT = {
             "guard-set equality + name-site disjointness over graphics/canvas/equation"),
     "C17": ("Each of the five grammars is LALR(1) conflict-free (unique tree per token string); "
             "every tree label a consumer tests is producible by its grammar and every directive "
-            "label is consumed; default stamp style, sign rewrite and N+1 have the stated form.",
+            "label is consumed; default stamp style, sign rewrite and N+1 have the stated form; the "
+            "text reaches the grammar unmodified and through no by-pass, inline whitespace is ignored "
+            "everywhere, a YAML loader is created per document, and a level name rewritten in place is "
+            "parsed once per dictionary.",
             "LALR(1) construction of the grammars read by ast + label producer/consumer agreement"),
     "C18": ("Each stated legality rule still has its raise ValueError guard: reachable from the "
             "public constructors, ranging over the whole collection, not swallowed, not an assert, "
